@@ -113,6 +113,13 @@ type Program struct {
 	Errors   []string
 	RepoRoot string
 	modsets  map[*types.Func]map[string]bool
+	cbsets   map[*types.Func]map[string]bool // callback fields ("Type.field") a function may invoke, transitively
+	cbImpls  map[string][]*types.Func        // registered implementations per callback field
+	cbNotes  []string
+	cbFieldType map[string]*types.Named
+	cbRegNotes  []string
+	cbRegDone   bool
+	baseModsets map[*types.Func]map[string]bool
 	notes    map[string]bool
 	checked  map[*Clause]bool
 	checkErr map[*Clause]error
